@@ -243,6 +243,52 @@ fn one(run: &mut Run, case: &Case, in_quantifier: bool) {
     let n = case.layers.len();
     let all = |_: i32, _: i32| true;
 
+    // --- "topmost first", stated on the stack itself (no model, no second buffer): walking down from the top, the first visible
+    // covering layer that has a visible cell at the position decides.  When that layer is a Normal-mode layer (and no visible
+    // Chars/Attributes cell lies above it, which would merge into it) the displayed character is its character and every colour
+    // of that cell that is not the transparent colour is displayed unchanged — cells further down may only fill the
+    // transparent colours in.
+    for (k, (x, y)) in pos.iter().enumerate() {
+        let shown = match &base[k] {
+            Ok(c) => *c,
+            Err(_) => continue,
+        };
+        // positions touched by a visible cell of a Chars/Attributes layer anywhere in the stack are left to the model
+        // correspondence (such a cell merges into the cells beneath it; see DESIGN §9.7 for what the code does when it lies
+        // beneath a transparent-colour cell)
+        let merging = case.layers.iter().any(|l| {
+            l.visible && l.mode != 0 && l.covers(*x, *y)
+                && l.rows.get((*y - l.oy) as usize).and_then(|r| r.get((*x - l.ox) as usize)).copied().flatten().map(|c| c.visible()).unwrap_or(false)
+        });
+        if merging {
+            continue;
+        }
+        for (li, l) in case.layers.iter().enumerate().rev() {
+            if !l.visible || !l.covers(*x, *y) {
+                continue;
+            }
+            let cell: CellOpt = l.rows.get((*y - l.oy) as usize).and_then(|r| r.get((*x - l.ox) as usize)).copied().flatten();
+            let vis = cell.map(|c| c.visible()).unwrap_or(false);
+            if l.mode != 0 {
+                if vis {
+                    break; // merges into the cell below: outside this clause
+                }
+                continue;
+            }
+            if let (true, Some(c)) = (vis, cell) {
+                let s = CellSpec::of(shown);
+                let ok = shown.is_visible() && s.ch == c.to_char().ch as u32 && (c.fg == TRANSPARENT || s.fg == c.fg) && (c.bg == TRANSPARENT || s.bg == c.bg);
+                if !ok {
+                    run.oracle_fail("topmost_first", &input, &format!("at ({},{}) the topmost visible cell is {} of layer {} but {} is displayed", x, y, c.show(), li, s.show()));
+                }
+                break;
+            }
+            if !l.alpha {
+                break; // opaque layer without a visible cell here: shows the default cell
+            }
+        }
+    }
+
     // --- consequence 1: inserting an empty alpha layer anywhere
     for idx in 0..=n {
         let mut e = LayerSpec::empty(rng.range(1, 12) as i32, rng.range(1, 8) as i32);
